@@ -23,7 +23,7 @@ from spec.att import ATT_ERROR_RSP, answered, response_opcode
 from bumble import att, core, gatt_server
 from pyvc.contracts import (Bool, Bytes, BytesN, Callback, ConcList, Inst, Int, IntRange, ListOf, OneOf, OrUnbound, TupleOf, bound, contract, forall,
                             implies, model, ufb)
-from pyvc.ext_c10 import REC_FROM_NATIVE, Rec, named
+from pyvc.ext_c10 import REC_FROM_NATIVE, RecVal, named
 
 ENVIRONMENT = [
     '@AsyncRunner.run_in_task() on the handlers is read from the AST and ignored (decorators_ok): the coroutine body is '
@@ -77,7 +77,7 @@ model(
     methods={'__eq__': lambda self, other: self.n == other.n, 'to_pdu_bytes': uuid_pdu_bytes},
     build=build_uuid,
 )
-UUID_T = Rec('bumble.core:UUID#c10')
+UUID_T = RecVal('bumble.core:UUID#c10')
 REC_FROM_NATIVE['bumble.core:UUID#c10'] = lambda u: dict(w={2: 0, 4: 1, 16: 2}[len(u.uuid_bytes)], n=int.from_bytes(u.uuid_128_bytes, 'little'))
 
 
@@ -115,7 +115,7 @@ model(
         'write_value': Callback('write_value', effect=attr_write, is_async=True, raises=(att.ATT_Error,)),
     },
 )
-ATTR = Rec('bumble.att:Attribute#c10')
+ATTR = RecVal('bumble.att:Attribute#c10')
 ATTR_LIST = ListOf(ATTR)
 
 
